@@ -91,10 +91,13 @@ theorem restore_congr (H : Str → Str) {s s' : Store} {b : Nat} (hs : NoDupKeys
 it with the earlier versions, so the stores must agree on the whole chain `chain s b` (StitchSpec.lean:
 `b`, then each nearest earlier version that has a head, up to the first that has a tail) — the keys
 under each of its versions' directories and the blocks they name — and no version without a head
-file below `b` may have one in `s'`. -/
+file below `b` may have one in `s'`, and (`hlost`, since the repair of `previous_existing_band`, which
+reports an id it walks past if the head is gone but index hunk 0 is there) such a version has "lost
+its head" in both stores or in neither. -/
 theorem restore_congr_chain (H : Str → Str) {s s' : Store} {b : Nat} (hs : NoDupKeys s) (hs' : NoDupKeys s')
     (hsame : ∀ c ∈ chain s b, BandSame s s' c)
     (hnone : ∀ b', b' < b → bandPresent s b' = false → bandPresent s' b' = false)
+    (hlost : ∀ b', b' < b → bandPresent s b' = false → headLost s' b' = headLost s b')
     (hroot : s'.get? .blockRoot = s.get? .blockRoot)
     (hblocks : ∀ c ∈ chain s b, ∀ n es, hunkAt s c n = some es → ∀ e ∈ es, ∀ a ∈ e.addrs,
       blockContent H s' a.hash = blockContent H s a.hash) :
@@ -104,7 +107,7 @@ theorem restore_congr_chain (H : Str → Str) {s s' : Store} {b : Nat} (hs : NoD
   have heq : restoreRaw H s' b = restoreRaw H s b :=
     restoreRaw_same hs hs' (hsame b (List.mem_cons_self ..))
       (fun hinc => chainSame_of_chainBelow b
-        (fun c hc => hsame c (by simp only [chain, hinc]; exact List.mem_cons_of_mem _ hc)) hnone)
+        (fun c hc => hsame c (by simp only [chain, hinc]; exact List.mem_cons_of_mem _ hc)) hnone hlost)
       hroot
       (fun e he a ha => by
         obtain ⟨c, hc, n, es, hh, hee⟩ := mem_stitchAllP he
@@ -220,19 +223,25 @@ theorem c05_stitchChain_eq (s : Store) (b : Nat) : C05.stitchChain s b = chain s
   simp only [C05.stitchChain, chain, c05_chainBelow_eq]
   split <;> rfl
 
+/-- For an id without head file, "lost its head" is "holds index hunk 0". -/
+theorem headLost_absent {s : Store} {b : Nat} (hp : bandPresent s b = false) :
+    headLost s b = fileAt s (.hunk b 0) := by
+  simp only [headLost, hp, Bool.not_false, Bool.true_and, fileAt]
+  rfl
+
 /-- **`delete_keeps_restore`: `C05.delete_keeps_restore_Statement` holds, exactly as stated there.**
 After a successful real delete on a readable archive, restoring a kept version `b` whose whole
 stitch chain is kept — `b` itself if it is complete; for an incomplete `b` also the earlier versions
 its listing continues into — gives the same result and the same reported errors as before. -/
 theorem delete_keeps_restore : C05.delete_keeps_restore_Statement := by
-  intro H s D o b ok hdirs hfree hnew hdry hnd hex hchain s' r r'
+  intro H s D o b ok hdirs hfree hnew hdry hnd hex hchain hlostD s' r r'
   have hn : NoDupKeys s := (uniqueKeys_iff_nodup s).1 ok.nodup
   have hk := C05.delete_safe_any_world H D o (World.clean s) hdirs
   have hstore : s' = deleted s D := (C05.delete_exact_store s D o ok hfree hnew hdry hnd hex).2.1
   rw [c05_stitchChain_eq] at hchain
   have hres : SameRestore H b s s' := by
     refine restore_congr_chain H hn (Prog.run_noDupKeys _ (World.clean s) hn)
-      (fun c hc => hk.keys c (hchain c hc)) ?_ ?_ ?_
+      (fun c hc => hk.keys c (hchain c hc)) ?_ ?_ ?_ ?_
     · intro b' _ hno
       show bandPresent s' b' = false
       have hg : (deleted s D).get? (.bandHead b') = none ∨
@@ -242,6 +251,30 @@ theorem delete_keeps_restore : C05.delete_keeps_restore_Statement := by
       rcases hg with hg | hg
       · simp only [bandPresent, hg]
       · simp only [bandPresent, hg]; exact hno
+    · intro b' hlt hno
+      show headLost s' b' = headLost s b'
+      have hno' : bandPresent (deleted s D) b' = false := by
+        have hg : (deleted s D).get? (.bandHead b') = none ∨
+            (deleted s D).get? (.bandHead b') = s.get? (.bandHead b') := by
+          rw [get?_deleted]; split <;> simp
+        rcases hg with hg | hg
+        · simp only [bandPresent, hg]
+        · simp only [bandPresent, hg]; exact hno
+      have hk0 : (deleted s D).get? (.hunk b' 0) = none ∨
+          (deleted s D).get? (.hunk b' 0) = s.get? (.hunk b' 0) := by
+        rw [get?_deleted]; split <;> simp
+      rw [hstore, headLost_absent hno', headLost_absent hno]
+      by_cases hbD : b' ∈ D
+      · have hs0 : fileAt s (.hunk b' 0) = false := hlostD b' hbD hlt hno
+        rw [hs0]
+        rcases hk0 with hk0 | hk0
+        · simp only [fileAt, hk0]
+        · simp only [fileAt, hk0]; exact hs0
+      · have := (hk.keys b' hbD) (.hunk b' 0) (by simp [Key.isUnder, Key.parent])
+        rw [← hstore]
+        simp only [fileAt]
+        rw [this]
+        rfl
     · exact C05.delete_frame_any_world true D o (World.clean s) .blockRoot (by simp) (underAny_blockRoot D) (by simp)
     · intro c hc n es hh e hee a ha
       have hb : s'.get? (.block a.hash) = s.get? (.block a.hash) :=
@@ -698,7 +731,7 @@ example :
     (restoreOf C05.exH 1 s').1 = (restoreOf C05.exH 1 C05.exStore).1 ∧
       (restoreOf C05.exH 1 s').2.events = (restoreOf C05.exH 1 C05.exStore).2.events :=
   delete_keeps_restore C05.exH C05.exStore [0] {} 1 C05.ex_archOK0 C05.ex_dirsOk C05.ex_lockFree C05.ex_newest rfl
-    (by decide) (by rw [C05.ex_bands]; decide) (by decide)
+    (by decide) (by rw [C05.ex_bands]; decide) (by decide) (by decide +kernel)
 
 /-- `delete_any_world_keeps_restore`: the same delete, killed before its third mutating micro-step. -/
 example : SameRestore C05.exH 1 C05.exStore
